@@ -603,7 +603,9 @@ impl<'tcx> Extractor<'tcx> {
             }
         }
         // scalar value if cheaply available
-        let is_scalar_ty = t.is_integral() || t.is_bool() || t.is_char();
+        // (a pattern type over an integer — `(u16) is 1..`, the payload of NonZero — carries a plain integer)
+        let base_t = if let ty::Pat(b, _) = t.kind() { *b } else { t };
+        let is_scalar_ty = base_t.is_integral() || base_t.is_bool() || base_t.is_char();
         if is_scalar_ty {
             let can_eval = match c {
                 Const::Unevaluated(u, _) => u.promoted.is_none(),
@@ -613,7 +615,7 @@ impl<'tcx> Extractor<'tcx> {
                 if let Some(si) = c.try_eval_scalar_int(tcx, typing_env) {
                     let size = si.size();
                     let bits = si.to_bits(size);
-                    if t.is_signed() {
+                    if base_t.is_signed() {
                         let v = size.sign_extend(bits) as i128;
                         fields.push(format!("\"val\":\"{}\"", v));
                     } else {
